@@ -188,7 +188,10 @@ def get_solution(
             reverse = rxn.reverse_id
             rxn_index.append(forward)
             fluxes[i] = var_primals[forward] - var_primals[reverse]
-            reduced[i] = var_duals[forward] - var_duals[reverse]
+            # The reverse variable enters every constraint and the objective with
+            # the opposite sign, so its reduced cost is the negative of the forward
+            # variable's; the reduced cost of the net flux is the forward one.
+            reduced[i] = var_duals[forward]
         met_index = []
         constr_duals = model.solver.shadow_prices
         for i, met in enumerate(metabolites):
